@@ -209,8 +209,13 @@ theorem retype_blobs_eq {p : IPack} (h : ∀ b ∈ p.blobs, b.tpe = packType p) 
 
 theorem retype_id (p : IPack) : (retype p).id = p.id := rfl
 
+/-- check's own index is built from the unmarked sections only: it lists exactly the packs of the readers' index. -/
+theorem checkIndexPacks_false (r : Repo) : checkIndexPacks false r = livePacks r := by
+  simp [checkIndexPacks, livePacks]
+
 theorem mem_reconstructed {r : Repo} {p : IPack} (hp : p ∈ livePacks r) : retype p ∈ reconstructed r := by
-  unfold reconstructed
+  unfold reconstructed reconstructedOf
+  rw [checkIndexPacks_false]
   apply List.mem_map_of_mem
   cases hpt : packType p with
   | tree => exact List.mem_append_left _ (List.mem_filter.mpr ⟨hp, by simp [hpt]⟩)
@@ -254,7 +259,7 @@ theorem key_ok {z : Sizes} {r : Repo} {lk : Lookup} {packs : List Id}
   -- the reconstructed pack was read
   have hmiss := missing_nil_of_listErrs hl
   have hcp : checkPack z r (retype p) = [] := by
-    unfold packErrs at hp
+    unfold packErrs packErrsOf at hp
     refine (List.flatMap_eq_nil_iff.mp hp) (retype p) (List.mem_filter.mpr ⟨mem_reconstructed hpl, ?_⟩)
     simp only [retype_id, hmiss, hpid, Bool.and_eq_true]
     exact ⟨by simp, by simpa using hin⟩
@@ -288,6 +293,11 @@ theorem key_ok {z : Sizes} {r : Repo} {lk : Lookup} {packs : List Id}
 typed by that pack.  (Which entry among duplicates is not constrained.)  Implementation: property C17. -/
 def LkSound (r : Repo) (lk : Lookup) : Prop :=
   ∀ t id e, lk t id = some e → ∃ p ∈ livePacks r, p.id = e.pack ∧ packType p = t ∧
+    ∃ b ∈ p.blobs, b.id = id ∧ b.offset = e.offset ∧ b.length = e.length ∧ b.ulen = e.ulen
+
+/-- the same specification for an index built from an explicit pack list -/
+def LkSoundOn (ps : List IPack) (lk : Lookup) : Prop :=
+  ∀ t id e, lk t id = some e → ∃ p ∈ ps, p.id = e.pack ∧ packType p = t ∧
     ∃ b ∈ p.blobs, b.id = id ∧ b.offset = e.offset ∧ b.length = e.length ∧ b.ulen = e.ulen
 
 /-- Only directory nodes carry a subtree (what every archiver writes).  `TreeStreamerOnce` and the node
@@ -358,11 +368,40 @@ theorem nodeErrs_nil_of_walkErrs {lk : Lookup} {out : List (Id × List Node)} {t
   unfold walkErrs at h
   exact (List.flatMap_eq_nil_iff.mp ((List.flatMap_eq_nil_iff.mp h) (t, nodes) hm)) n hn
 
+/-- a node without finding whose subtree is `t`: `t` is in the index and its pack is in the read set — whatever the
+kind of the node (since `fix: check ignored subtrees of non-directory nodes`). -/
+theorem subtree_indexed_of_nodeErrs_nil {lk : Lookup} {n : Node} {t : Id} (hs : n.subtree = some t)
+    (h : nodeErrs lk n = []) : ∃ e, lk .tree t = some e ∧ e.pack ∈ nodePacks lk n := by
+  have key : subtreeErrs lk (some t) = [] → ∃ e, lk .tree t = some e ∧ e.pack ∈ subtreePacks lk (some t) := by
+    intro h'
+    simp only [subtreeErrs] at h'
+    by_cases hnz : t = nullId
+    · simp [hnz] at h'
+    · simp only [hnz, if_false] at h'
+      cases hl : lk .tree t with
+      | none => simp [hl] at h'
+      | some e => exact ⟨e, rfl, by simp [subtreePacks, hnz, hl]⟩
+  unfold nodeErrs at h
+  unfold nodePacks
+  cases hk : n.kind with
+  | file =>
+    simp only [hk, hs, List.append_eq_nil_iff] at h
+    obtain ⟨e, he, hp⟩ := key h.2
+    exact ⟨e, he, by simp only [hs]; exact List.mem_append_right _ hp⟩
+  | dir =>
+    simp only [hk, hs] at h
+    obtain ⟨e, he, hp⟩ := key h
+    exact ⟨e, he, by simp only [hs]; exact hp⟩
+  | other =>
+    simp only [hk, hs] at h
+    obtain ⟨e, he, hp⟩ := key h
+    exact ⟨e, he, by simp only [hs]; exact hp⟩
+
 /-- Soundness of the check model (with the root-tree packs in the read set). -/
 theorem check_sound {z : Sizes} {r : Repo} {lk : Lookup} {fuel : Nat} (hlk : LkSound r lk)
-    (hd : DirsOnly r lk) (h : check z true r lk fuel = .findings []) :
+    (h : check z true r lk fuel = .findings []) :
     ∀ s ∈ r.snaps, RestoresCorrectly r lk s.tree := by
-  unfold check at h
+  unfold check checkW at h
   split at h
   · cases h
   · split at h
@@ -389,22 +428,12 @@ theorem check_sound {z : Sizes} {r : Repo} {lk : Lookup} {fuel : Nat} (hlk : LkS
           obtain ⟨nodes', hmem, hrd'⟩ := reach_processed hw hroot hpar
           rw [hrd] at hrd'
           cases hrd'
-          have hdir : n.kind = .dir := hd _ _ hrd n hn (by simp [hsub])
           have hne := nodeErrs_nil_of_walkErrs he hmem hn
-          unfold nodeErrs at hne
-          simp only [hdir, hsub] at hne
-          split at hne
-          · simp at hne
-          · rename_i hnz
-            cases hl' : lk .tree t with
-            | none => simp [hl'] at hne
-            | some e =>
-              refine ⟨e, rfl, ?_⟩
-              unfold readSet
-              apply List.mem_append_right
-              apply mem_walkPacks hmem hn
-              unfold nodePacks
-              simp [hdir, hsub, hnz, hl']
+          obtain ⟨e, he', hp'⟩ := subtree_indexed_of_nodeErrs_nil hsub hne
+          refine ⟨e, he', ?_⟩
+          unfold readSet
+          apply List.mem_append_right
+          exact mem_walkPacks hmem hn hp'
       obtain ⟨nodes, hmem, hrd⟩ := reach_processed hw hroot ht
       refine ⟨?_, nodes, hrd, ?_⟩
       · obtain ⟨e, he', hin⟩ := hkey t ht
@@ -412,7 +441,8 @@ theorem check_sound {z : Sizes} {r : Repo} {lk : Lookup} {fuel : Nat} (hlk : LkS
       · intro n hn hfile
         have hne := nodeErrs_nil_of_walkErrs he hmem hn
         unfold nodeErrs at hne
-        simp only [hfile] at hne
+        simp only [hfile, List.append_eq_nil_iff] at hne
+        replace hne := hne.1
         cases hc : n.content with
         | none => simp [hc] at hne
         | some ids =>
@@ -426,7 +456,7 @@ theorem check_sound {z : Sizes} {r : Repo} {lk : Lookup} {fuel : Nat} (hlk : LkS
           apply mem_walkPacks hmem hn
           unfold nodePacks
           simp only [hfile, hc, Option.getD_some]
-          exact List.mem_filterMap.mpr ⟨d, hdm, by simp [he']⟩
+          exact List.mem_append_left _ (List.mem_filterMap.mpr ⟨d, hdm, by simp [he']⟩)
 
 /-- The executable restorability verdict the driver prints is sound for the specification. -/
 theorem blobOkB_sound {r : Repo} {lk : Lookup} {t : BT} {id : Id} (h : blobOkB r lk t id = true) :
@@ -476,7 +506,7 @@ theorem blobOkB_complete {r : Repo} {lk : Lookup} {t : BT} {id : Id} (h : BlobOk
 /-- The driver's lookup (first matching entry) satisfies the index specification. -/
 theorem lkFirst_sound (r : Repo) : LkSound r (lkFirst r) := by
   intro t id e h
-  unfold lkFirst at h
+  unfold lkFirst lkOf at h
   obtain ⟨p, hp, hpe⟩ := List.exists_of_findSome?_eq_some h
   refine ⟨p, hp, ?_⟩
   split at hpe
@@ -488,6 +518,25 @@ theorem lkFirst_sound (r : Repo) : LkSound r (lkFirst r) := by
     simp only [beq_iff_eq] at hid
     exact ⟨rfl, hpt, b, hmem, hid, rfl, rfl, rfl⟩
   · cases hpe
+
+theorem lkOf_sound (ps : List IPack) : LkSoundOn ps (lkOf ps) := by
+  intro t id e h
+  unfold lkOf at h
+  obtain ⟨p, hp, hpe⟩ := List.exists_of_findSome?_eq_some h
+  refine ⟨p, hp, ?_⟩
+  split at hpe
+  · rename_i hpt
+    simp only [Option.map_eq_some_iff] at hpe
+    obtain ⟨b, hb, rfl⟩ := hpe
+    have hmem := List.mem_of_find?_eq_some hb
+    have hid := List.find?_some hb
+    simp only [beq_iff_eq] at hid
+    exact ⟨rfl, hpt, b, hmem, hid, rfl, rfl, rfl⟩
+  · cases hpe
+
+/-- an index over the packs `check_packs` collects is an index over the readers' pack list, and vice versa -/
+theorem lkSound_iff_checkIndex (r : Repo) (lk : Lookup) : LkSoundOn (checkIndexPacks false r) lk ↔ LkSound r lk := by
+  rw [checkIndexPacks_false]; exact Iff.rfl
 
 /-- decidable sufficient condition for `DirsOnly`: look at every indexed blob id -/
 def dirsOnlyB (r : Repo) (lk : Lookup) : Bool :=
